@@ -1431,6 +1431,23 @@ def namespace_assembly(repo, run, rule):
     for p, e in removals:
         x = e.args[1].text
         facts = dict((t, pol) for t, pol in e.facts)
+        # the removed name may be drawn from a filtering generator expression / comprehension: its conditions hold for every element
+        xa = e.args[1].ast
+        if isinstance(xa, ast.Call) and isinstance(xa.func, ast.Name) and xa.func.id == 'each' and len(xa.args) == 1 and isinstance(xa.args[0], (ast.GeneratorExp, ast.ListComp, ast.SetComp)) \
+                and len(xa.args[0].generators) == 1 and isinstance(xa.args[0].generators[0].target, ast.Name) and isinstance(xa.args[0].elt, ast.Name) \
+                and xa.args[0].elt.id == xa.args[0].generators[0].target.id:
+            var = xa.args[0].elt.id
+            x = var
+            for cond in xa.args[0].generators[0].ifs:
+                for cj in (cond.values if isinstance(cond, ast.BoolOp) and isinstance(cond.op, ast.And) else [cond]):
+                    if isinstance(cj, ast.UnaryOp) and isinstance(cj.op, ast.Not):
+                        facts[norm(cj.operand)] = False
+                    elif isinstance(cj, ast.Compare) and len(cj.ops) == 1 and isinstance(cj.ops[0], ast.IsNot):
+                        facts[norm(ast.Compare(left=cj.left, ops=[ast.Is()], comparators=cj.comparators))] = False
+                    elif isinstance(cj, ast.Compare) and len(cj.ops) == 1 and isinstance(cj.ops[0], ast.NotIn):
+                        facts[norm(ast.Compare(left=cj.left, ops=[ast.In()], comparators=cj.comparators))] = False
+                    else:
+                        facts[norm(cj)] = True
         if facts.get('%s in %s.__dict__' % (x, cls)) is not True:
             bad.add('a member is removed without being known to be in the class\'s own dictionary')
         if facts.get("%s.startswith('__')" % x) is not False:
